@@ -16,6 +16,8 @@ var runePool = []rune{
 	'0', '1', '2', '3', '4', '5', '6', '7', '8', '9', '-',
 	// case pairs whose two members have different UTF-8 lengths or fold across scripts
 	0x023A, 0x2C65, 0x0130, 0x1E9E, 0x00DF,
+	// boundaries: of the Basic Latin table (U+007F / U+0080), of the UTF-8 lengths, of the surrogate gap, of Unicode
+	0x00, 0x7F, 0x80, 0x7FF, 0x800, 0xD7FF, 0xE000, 0xFFFF, 0x10000, 0x10FFFF,
 }
 
 // casePairs are runes that are interesting together under ignoreCase.
